@@ -12,8 +12,8 @@ RULE = ('case = (solver, box shape incl. degenerate/one-sided/infinite/None entr
 ASSUMPTIONS = ['None entries mean the documented default +-1e3', 'only evaluation-level claims are made after a mid-run change of ranges',
                'tight=False with clip set is the one illegal mode and is excluded']
 CLASSES = {
-    'ranges': {'quick': 500, 'thorough': 12000},
-    'initial_points': {'quick': 400, 'thorough': 6000},
+    'ranges': {'quick': 1000, 'thorough': 12000},
+    'initial_points': {'quick': 800, 'thorough': 6000},
 }
 MIN_EVENTS = {'quick': {'assert:c02': 20000, 'box_rejections': 1000, 'assert:init': 400}}
 CASE_TIMEOUT = 120
